@@ -23,6 +23,8 @@ import (
 //   R-error-passthrough returned error objects are *JSONRPCError (shared with C03)
 //   R-client-decoders   Client and StdioClient decode each operation's answer with the same function,
 //                       after the same error-response test
+//   R-result-presence   clients decide on the presence of "result", not on its value being non-nil
+//   R-cap-guards / R-cap-wired  (shared with C16) capabilities are computed alike for every server
 func init() { Registry["C14"] = checkC14 }
 
 var commonMethods = []string{"initialize", "ping", "tools/list", "tools/call", "prompts/list", "prompts/get", "resources/list", "resources/read"}
